@@ -14,7 +14,7 @@ RULE = ("case = (protocol version 2|3; 48-bit device id; for V3 a 64-byte token 
         "applied = full settable state; initial = independent device state incl. display, sensors, filter flag; per-exchange "
         "delivery script: cut set and inter-chunk gap (V3: any cut set incl. byte-by-byte and coalescing; V2: one segment per "
         "packet) and 0..3 unsolicited frames before/after the solicited reply from {duplicate of the reply, spontaneous 0xC0 "
-        "report of the old/current state, 0xA0/0xA1 reports, type-5 0xB5 notification, a checksum-valid property report whose last record is cut short}; optionally the device pushes such frames - one, or a backlog of up to 100 - on the idle connection before the apply, and the client may then stay idle for up to 30 h; the unit forgets a V3 session key 12 h + 1 min after the handshake; optionally a poll of client A is still in flight when A applies; optionally (V3) A has just abandoned an explicit re-authentication whose handshake reply arrives late; optionally the unit hangs up after every answer - FIN or RST, seen by the client's event loop after or in the same pass as the answer; optionally the host's local time zone ends or begins daylight saving time during the idle period). (a) client A refreshes, sets every "
+        "report of the old/current state, 0xA0/0xA1 reports, type-5 0xB5 notification, a checksum-valid property report whose last record is cut short}; optionally the device pushes such frames - one, or a backlog of up to 100 - on the idle connection before the apply, and the client may then stay idle for up to 30 h; the unit forgets a V3 session key 12 h + 1 min after the handshake; optionally the caller hands the setters plain numbers (integral setpoint as int, switches as 1/0); optionally a poll of client A is still in flight when A applies; optionally (V3) A has just abandoned an explicit re-authentication whose handshake reply arrives late; optionally the unit hangs up after every answer - FIN or RST, seen by the client's event loop after or in the same pass as the answer; optionally the host's local time zone ends or begins daylight saving time during the idle period). (a) client A refreshes, sets every "
         "attribute, apply(): the model device's state decoded with its own vendor-layout decoder must equal applied field by "
         "field, non-settable fields unchanged, no frame rejected, every packet carries the configured device id, and A's "
         "attributes equal applied. (b) a fresh client B (new object, connection, handshake) refresh(): B's attributes equal the "
@@ -122,7 +122,7 @@ def _check_once(case: dict):
             dev.on_data = lambda dev_, conn, frame: ("answer", {"delay": 0.3})
             bg = asyncio.ensure_future(a.refresh())
             await asyncio.sleep(0.1)
-        acutil.set_attrs(a, applied)
+        acutil.set_attrs(a, applied, case.get("forms", ""))
         await a.apply()
         if bg is not None:
             await bg
@@ -261,7 +261,7 @@ def cases():
         optional={"idle_push": st.lists(st.sampled_from(["STATE", "STATE", "A0", "B5N"]), min_size=1, max_size=3), "again": st.sampled_from([None, "client", "remote"]),
                   "idle_hours": st.sampled_from([0, 0, 1, 11.9, 12.5, 13, 30]), "push_repeat": st.sampled_from([1, 1, 1, 40, 100]),
                   "hangup": st.sampled_from([None, None, "fin", "rst", "fin_same", "rst_same"]),
-                  "inflight": st.sampled_from([False, False, False, True]), "reauth_abandoned": st.sampled_from([0, 0, 0, 0.1, 0.8]),
+                  "inflight": st.sampled_from([False, False, False, True]), "forms": st.sampled_from(["", "", "plain"]), "reauth_abandoned": st.sampled_from([0, 0, 0, 0.1, 0.8]),
                   "zone": st.sampled_from(ZONES)}).map(lambda c: dict({k_: v_ for k_, v_ in c.items() if k_ != "zone" and not (k_ == "inflight" and (c.get("hangup") or c.get("reauth_abandoned")))}, **c.get("zone", {})))
 
 
@@ -304,6 +304,8 @@ def run(ctx) -> None:
                                  "initial": {"power": False, "mode": 2, "target": 24.0, "fan": 80, "swing": 0, "eco": False, "turbo": 0, "sleep": False, "fahrenheit": False,
                                              "freeze": False, "follow_me": False, "purifier": False, "humidity": 45, "aux": 0, "display_on": True, "indoor_raw": 92,
                                              "outdoor_raw": 104, "indoor_tenths": 3, "outdoor_tenths": 0, "filter_alert": False}, "script": [], "idle_hours": hours, "again": "remote"}, **zone)
+                    if k % 3 == 0:
+                        case["forms"] = "plain"
                     if hangup:
                         case["hangup"] = hangup
                     elif k % 2 == 0:
